@@ -1003,13 +1003,18 @@ class Gen(object):
             lambda: ("nline", n, 2, 2, 0, 0, 0, 1, 1, 0, 1, 2, 0, "0", "1", "1", "0"),                     # T written as a line
             lambda: ("nline", n, 2, 2, 0, 0, par(0), par(1), par(1), par(0), 2, 1, 0, "0.1", "0.7", "0.7", "0.1"),
         ]
-        if r.random() < 0.35:
-            chosen = [pool[5], pool[8], pool[7]]            # a real TRL set, in a random order
+        if r.random() < 0.25:
+            chosen = [pool[5](), pool[8](), pool[7]()]      # a real TRL set, in a random order
         else:
-            chosen = [r.choice(pool) for _ in range(3)]
+            # three standards that refer to both unknown parameters (else the solver does not take the TRL test)
+            for _ in range(20):
+                chosen = [r.choice(pool)() for _ in range(3)]
+                used = set(tk for st_ in chosen for tk in st_[6:] if isinstance(tk, int) and tk >= 3)
+                if used == set(u):
+                    break
         r.shuffle(chosen)
-        for mk in chosen:
-            self.emit(*mk())
+        for st_ in chosen:
+            self.emit(*st_)
         self.emit("nsolve", n)
         for _ in range(r.choice([0, 1, 2])):
             k = r.randrange(4)
